@@ -180,6 +180,11 @@ func (mux *abciMux) LoadSnapshotChunk(req types.RequestLoadSnapshotChunk) types.
 
 func (mux *abciMux) ApplySnapshotChunk(req types.RequestApplySnapshotChunk) types.ResponseApplySnapshotChunk {
 	cp := mux.state.storage.Checkpointer().GetCurrentCheckpoint()
+	if cp == nil {
+		// This should never happen.
+		mux.logger.Error("ApplySnapshotChunk called without OfferSnapshot, aborting state sync")
+		return types.ResponseApplySnapshotChunk{Result: types.ResponseApplySnapshotChunk_ABORT}
+	}
 
 	mux.logger.Debug("attempting to restore a chunk",
 		"root", cp.Root,
